@@ -52,7 +52,6 @@ Section Total.
   Local Notation rgba_de_u := (rgba_de_u frgba).
   Local Notation glyph_de := (glyph_de orc frgba).
   Local Notation text_rec := (text_rec orc frgba).
-  Local Notation view_de := (view_de orc frgba).
 
   Lemma of_bool_total b : no_panic (of_bool b).
   Proof. destruct b; exact I. Qed.
@@ -76,7 +75,7 @@ Section Total.
 
   Lemma frame_fields_total m : no_panic (frame_fields orc frgba m).
   Proof.
-    induction m as [|[k v] m IH]; [exact I|]. cbn [frame_fields]. apply bind_total; [|intros _; exact IH].
+    induction m as [|[k v] m IH]; [exact I|]. cbn [frame_fields]. apply bind_total; [|intros ?; exact IH].
     destruct (_ || _); [apply of_bool_total|]. destruct (_ || _); [apply rgba_de_u_total | exact I].
   Qed.
 
@@ -119,14 +118,26 @@ Section Total.
   Lemma unit_of_total {A} (o : outcome A) : no_panic o -> no_panic (unit_of o).
   Proof. destruct o; cbn; auto. Qed.
 
-  Lemma view_de_total : forall fuel j, (jdepth j < fuel)%nat -> no_panic (view_de fuel j).
+  Lemma map_out_total {X} (g : json -> outcome X) l :
+    (forall c, In c l -> no_panic (g c)) -> no_panic (map_out g l).
   Proof.
-    induction fuel as [|f IH]; intros j Hd; [lia|].
-    cbn [ViewDe.view_de].
+    induction l as [|c l IHl]; intros H; [exact I|]. cbn [map_out].
+    apply bind_total; [apply H; left; reflexivity|]. intros x.
+    apply bind_total; [apply IHl; intros y Hy; apply H; right; exact Hy | intros ?; exact I].
+  Qed.
+
+  Lemma view_gen_total {T : Type} (B : builders T) :
+    (forall j i, no_panic (b_ascii T B j i)) ->
+    forall fuel j, (jdepth j < fuel)%nat -> no_panic (view_gen orc frgba B fuel j).
+  Proof.
+    intros HB. induction fuel as [|f IH]; intros j Hd; [lia|].
+    cbn [view_gen].
     destruct (match jget j (s2l "type") with Some (JStr t) => Some t | _ => None end) as [t|]; [|exact I].
-    destruct (str_eqb t (s2l "text")); [apply text_rec_total; exact Hd|].
+    destruct (str_eqb t (s2l "text")).
+    { apply bind_total; [apply text_rec_total; exact Hd | intros ?; exact I]. }
     destruct (str_eqb t (s2l "trace-layout")).
-    { destruct (jget j (s2l "view")) as [v|] eqn:E; [|exact I]. apply IH. pose proof (jget_depth _ _ _ E). lia. }
+    { destruct (jget j (s2l "view")) as [v|] eqn:E; [|exact I].
+      apply bind_total; [|intros ?; exact I]. apply IH. pose proof (jget_depth _ _ _ E). lia. }
     destruct (str_eqb t (s2l "flex")).
     { apply bind_total; [apply opt_attr_total; intros v; apply of_bool_total|]. intros _.
       apply bind_total; [apply opt_attr_total; intros v; apply of_bool_total|]. intros _.
@@ -135,39 +146,45 @@ Section Total.
       pose proof (jget_depth _ _ _ E) as Hch.
       assert (Hall : forall c, In c l -> (jdepth c + 1 < f)%nat).
       { intros c Hc. pose proof (arr_depth l c Hc). lia. }
-      clear E Hch. induction l as [|c l IHl]; [exact I|].
-      apply bind_total.
-      - destruct (is_some (jget c (s2l "type"))).
-        + apply IH. specialize (Hall c (or_introl eq_refl)). lia.
-        + apply bind_total; [apply opt_attr_total; intros v; apply of_bool_total|]. intros _.
-          apply bind_total; [apply opt_attr_total; intros v; apply of_bool_total|]. intros _.
-          apply bind_total; [apply opt_attr_total, face_de_u_total|]. intros _.
-          destruct (jget c (s2l "view")) as [v|] eqn:Ev; [|exact I].
-          apply IH. pose proof (jget_depth _ _ _ Ev). specialize (Hall c (or_introl eq_refl)). lia.
-      - intros _. apply IHl. intros y Hy. apply Hall. right. exact Hy. }
+      apply bind_total; [|intros ?; exact I].
+      apply map_out_total. intros c Hc.
+      destruct (is_some (jget c (s2l "type"))).
+      + apply IH. specialize (Hall c Hc). lia.
+      + apply bind_total; [apply opt_attr_total; intros v; apply of_bool_total|]. intros _.
+        apply bind_total; [apply opt_attr_total; intros v; apply of_bool_total|]. intros _.
+        apply bind_total; [apply opt_attr_total, face_de_u_total|]. intros _.
+        destruct (jget c (s2l "view")) as [v|] eqn:Ev; [|exact I].
+        apply IH. pose proof (jget_depth _ _ _ Ev). specialize (Hall c Hc). lia. }
     destruct (str_eqb t (s2l "container")).
     { apply bind_total; [apply opt_attr_total, face_de_u_total|]. intros _.
       apply bind_total; [apply opt_attr_total; intros v; apply of_bool_total|]. intros _.
       apply bind_total; [apply opt_attr_total; intros v; apply of_bool_total|]. intros _.
       apply bind_total; [apply opt_attr_total; intros v; apply of_bool_total|]. intros _.
       apply bind_total; [apply opt_attr_total; intros v; apply of_bool_total|]. intros _.
-      destruct (jget j (s2l "child")) as [v|] eqn:E; [|exact I]. apply IH. pose proof (jget_depth _ _ _ E). lia. }
-    destruct (str_eqb t (s2l "glyph")); [apply glyph_de_total|].
-    destruct (_ || _); [apply unit_of_total, image_de_total|].
+      destruct (jget j (s2l "child")) as [v|] eqn:E; [|exact I].
+      apply bind_total; [|intros ?; exact I]. apply IH. pose proof (jget_depth _ _ _ E). lia. }
+    destruct (str_eqb t (s2l "glyph")); [apply bind_total; [apply glyph_de_total | intros ?; exact I]|].
+    destruct (str_eqb t (s2l "image")); [apply bind_total; [apply image_de_total | intros ?; exact I]|].
+    destruct (str_eqb t (s2l "image_ascii")); [apply bind_total; [apply image_de_total | intros i; apply HB]|].
     destruct (str_eqb t (s2l "color")); [exact I|].
     destruct (str_eqb t (s2l "tag")).
     { destruct (jget j (s2l "view")) as [v|] eqn:E; [|exact I].
-      destruct (jget j (s2l "tag")); [|exact I]. apply IH. pose proof (jget_depth _ _ _ E). lia. }
-    destruct (str_eqb t (s2l "ref")); [apply of_bool_total | exact I].
+      destruct (jget j (s2l "tag")); [|exact I].
+      apply bind_total; [|intros ?; exact I]. apply IH. pose proof (jget_depth _ _ _ E). lia. }
+    destruct (str_eqb t (s2l "ref")); [apply bind_total; [apply of_bool_total | intros ?; exact I] | exact I].
+  Qed.
+
+  Theorem view_gen_kind_total {T : Type} (B : builders T) (k : vkind) (j : json) :
+    (forall j i, no_panic (b_ascii T B j i)) -> no_panic (view_gen_kind orc frgba B k j).
+  Proof.
+    intros HB. destruct k; cbn [view_gen_kind].
+    - apply view_gen_total; [exact HB | lia].
+    - apply bind_total; [apply text_rec_total; lia | intros ?; exact I].
+    - apply bind_total; [apply glyph_de_total | intros ?; exact I].
   Qed.
 
   (* every JSON value, as a view tree, as a text, as a glyph *)
   Theorem view_de_kind_total (k : vkind) (j : json) : no_panic (view_de_kind orc frgba k j).
-  Proof.
-    destruct k; cbn [view_de_kind].
-    - apply view_de_total. lia.
-    - apply text_rec_total. lia.
-    - apply glyph_de_total.
-  Qed.
+  Proof. apply view_gen_kind_total. intros ? ?. exact I. Qed.
 
 End Total.
